@@ -3046,10 +3046,10 @@ PROPS = {
         'pinned': ['C04_fast_in_counts_R', 'C04_fast_out_counts_R', 'C04_fast_in_next_le_max_R', 'C04_sinc_in_next_le_max_R', 'C04_fast_out_next_le_max_R',
                    'C04_sinc_in_counts_R', 'C04_sinc_out_counts_R', 'C04_fft_in_counts_R', 'C04_fft_out_counts_R', 'C04_fft_inout_counts',
                    'C04_fast_in_steps_counts_R', 'C04_sinc_in_steps_counts_R', 'C04_fast_out_steps_counts_R', 'C04_sinc_out_steps_counts_R', 'C04_fft_out_next_le_max_R', 'C04_fft_in_next_le_max_R', 'C04_fft_inout_next_eq_max', 'C04_sinc_out_next_le_max_R', 'C04_sinc_out_li_ok', 'C04_f32_quotients_exact', 'C04_fft_out_counts_binary', 'C04_fft_in_counts_binary', 'C04_fast_in_next_le_max_B64', 'C04_sinc_in_next_le_max_B64', 'C04_fast_in_next_le_max_accepted_B64', 'C04_fast_in_next_le_max_B64_example',
-                   'C04_fast_out_fresh_next_le_max_B64', 'C04_fast_out_fresh_next_le_max_B64_example'],
+                   'C04_fast_out_fresh_next_le_max_B64', 'C04_fast_out_fresh_next_le_max_B64_example', 'C04_sinc_out_fresh_next_le_max_B64'],
         'unproved': ['next <= max in binary64 for the types other than FastFixedIn and SincFixedIn (those two: proved with Flocq by monotonicity of rounding, '
-                     'overflow and saturating cast included; FastFixedOut: proved in binary64 for the freshly constructed state only '
-                     '(C04_fast_out_fresh_next_le_max_B64), after calls over R only; the others are proved over R only)',
+                     'overflow and saturating cast included; FastFixedOut and SincFixedOut: proved in binary64 for the freshly constructed state only '
+                     '(C04_fast_out_fresh_next_le_max_B64, C04_sinc_out_fresh_next_le_max_B64), after calls over R only; the others are proved over R only)',
                      'ratio changes outside the envelope'],
         'assumptions': ['ideal arithmetic, except C04_fast_in_next_le_max_B64 (Flocq binary64)'],
         'trusted_base': ['Reals axioms, Flocq Ztrunc/Zceil lemmas; Flocq 4.1 BinarySingleNaN (Bmult_correct, Bplus_correct, Btrunc_correct, round_le, mult_bpow_exact_FLT)'],
